@@ -145,6 +145,30 @@ def parse_file(path):
         elif key.startswith('loop '):
             pending.append(('loop', int(key.split()[1]), blk))
             i = i2
+        elif key.startswith('mapfn '):
+            # sugar for `core::array::from_fn(|k| TY(core::array::from_fn(|n| EXPR)))`:
+            #   mapfn N: k K TY  /  lines = conjuncts over $e (element), $k, $n ; after `--` : proof text for the inner body
+            n0 = int(key.split()[1])
+            var, bound, ty = val.split()[:3]
+            ivar = (val.split() + ['n'])[3] if len(val.split()) > 3 else 'n'
+            body = [l for l in blk]
+            split = [ix for ix, l in enumerate(body) if l.strip() == '--']
+            conj, proof = (body[:split[0]], body[split[0] + 1:]) if split else (body, [])
+            conj = [c.strip().rstrip(',') for c in conj if c.strip()]
+            def sub(c, e, k, n):
+                return c.replace('$e', e).replace('$k', k).replace('$n', n)
+            outer = ['    requires %s < %s,' % (var, bound), '    ensures forall|%s: int| 0 <= %s < 256 ==> ' % (ivar, ivar) +
+                     ' && '.join('(' + sub(c, ('#[trigger] o.0[%s]' % ivar) if ix == 0 and '$e' in c else 'o.0[%s]' % ivar, '(%s as int)' % var, ivar) + ')'
+                                 for ix, c in enumerate(conj)) + ',']
+            # make sure a trigger exists even if the first conjunct has no $e
+            if not any('$e' in c for c in conj[:1]):
+                outer[1] = outer[1].replace('o.0[%s]' % ivar, '#[trigger] o.0[%s]' % ivar, 1)
+            inner = ['    requires %s < 256,' % ivar, '    ensures ' + ', '.join(sub(c, 'e', '(%s as int)' % var, '(%s as int)' % ivar) for c in conj) + ',']
+            if proof:
+                inner += ['    --'] + proof
+            pending.append(('closure', (n0, '(%s: usize) -> (o: %s)' % (var, ty)), outer))
+            pending.append(('closure', (n0 + 1, '(%s: usize) -> (e: i32)' % ivar), inner))
+            i = i2
         elif key.startswith('closure '):
             pending.append(('closure', (int(key.split()[1]), val.strip()), blk))
             i = i2
